@@ -1,6 +1,8 @@
 import PycsepVerif.Proto
 import PycsepVerif.Soft64
 import PycsepVerif.Model.Region
+import PycsepVerif.Model.RegionBuild
+import PycsepVerif.RealOps
 /-!
   Driver ops of property C01.
 
@@ -15,6 +17,22 @@ import PycsepVerif.Model.Region
      allowed   per point the `|`-joined answers the property allows (`o` = outside), points `;`-separated
      cats      per catalog  gi:<E | list>!gm:<0/1 list>!fs:<kept positions>!sc:<E | counts>
   The upper sides are computed like calc.py:117 does: `bins[-1] + (bins[1] - bins[0])` in binary64 (Soft64).
+
+  `c01_build <oxs> <oys> <dh> <flags> <decx> <decy> <decdh> <arrays> <loc>`   the float construction path (Model/RegionBuild.lean)
+     oxs oys        origins handed to `from_origins` / `compute_vertices` (exact rationals of the floats)
+     dh             spacing; `none:<x0>,<y0>,<x1>,<y1>` = `from_origins(origins)` without dh: inferred from the exact values of the
+                    decimal strings `repr` shows for the first two origins (regions.py:745-753)
+     flags          `none` (no poly_mask) or per polygon 1 ⇔ `poly_mask[k] == 1`
+     decx decy decdh  `num_decimals` of min x, min y, dh as `cleaner_range` reads them from `repr`
+     arrays         1 = also print bbox_mask / idx_map
+     loc            indices for `get_location_of`
+   → `<dh> <xs> <ys> <ux> <uy> <midx> <midy> <hash> <mask> <idxmap> <bbox> <loc>`
+     ux uy     per polygon `origin + dh - tol` (the other three vertices are combinations of origin and these)
+     hash      per polygon `idx:idy` of `bin1d_vec(midpoints, xs / ys)`
+     mask      rows `;`-separated, one character 0/1 per column;   idxmap   rows `;`-separated, entries index or `n`
+     bbox      `get_bbox()` four rationals;   loc   polygon numbers or `IndexError`
+
+  `c01_area <oxbits> <oybits> <dhbits>` → per polygon the IEEE bits of `get_cell_area()` (binary64 `Float`, libm cosine)
 -/
 namespace Drive.C01
 open Proto Region
@@ -51,7 +69,61 @@ def catalog (R : Region) (pts : Array (Rat × Rat)) (ids : List Nat) : String :=
   let keptOk := fs.length == kept.length
   s!"gi:{showExc (R.getIndexOf ps)}!gm:{showList (fun b => if b then "1" else "0") gm}!fs:{if keptOk then showList toString kept else "bad"}!sc:{showExc (R.spatialCounts ps)}"
 
+def parseFlags? (s : String) : Option (Option (List Bool)) :=
+  if s = "none" then some none else (parseList? parseNat? s).map (fun l => some (l.map (· == 1)))
+
+def parseDh? (s : String) : Option (Rat ⊕ (List Rat)) :=
+  if s.startsWith "none:" then
+    match parseList? parseRat? (s.drop 5).toString with
+    | some l => if l.length = 4 then some (.inr l) else none
+    | none => none
+  else (parseRat? s).map .inl
+
+def build (oxs oys : List Rat) (dh : Rat ⊕ (List Rat)) (flags : Option (List Bool)) (dec : Nat × Nat × Nat) (arrays : Bool)
+    (loc : List Int) : String :=
+  let origins := oxs.zip oys
+  let dhv := match dh with
+    | .inl d => d
+    | .inr r => inferDh (r.getD 0 0, r.getD 1 0) (r.getD 2 0, r.getD 3 0)
+  let tol := Soft64.eps64
+  let b := fromOrigins origins dhv flags dec
+  let ux := origins.map (fun o => upperF o.1 dhv tol)
+  let uy := origins.map (fun o => upperF o.2 dhv tol)
+  let R := b.region
+  let ny := b.ys.length
+  let nx := b.xs.length
+  let mask := if arrays then ";".intercalate ((List.range ny).map fun r =>
+      String.join ((List.range nx).map fun c => if R.grid.masked r c then "1" else "0")) else "-"
+  let imap := if arrays then ";".intercalate ((List.range ny).map fun r =>
+      ",".intercalate ((List.range nx).map fun c => showCart (R.grid.idxAt r c))) else "-"
+  let bb := getBbox b.xs b.ys dhv
+  let locs := match getLocationOf origins.length loc with
+    | .ok l => showList toString l
+    | .error _ => "IndexError"
+  " ".intercalate [showRat dhv, showList showRat b.xs, showList showRat b.ys, showList showRat ux, showList showRat uy,
+    showList (fun m => showRat m.1) b.mids, showList (fun m => showRat m.2) b.mids,
+    showList (fun h => s!"{h.1}:{h.2}") b.hash, mask, imap,
+    ",".intercalate [showRat bb.1, showRat bb.2.1, showRat bb.2.2.1, showRat bb.2.2.2], locs]
+
+local instance : NatCast Float := ⟨Float.ofNat⟩
+
+/-- numpy.pi -/
+def piF : Float := 3.141592653589793
+
+def area (ox oy : List Float) (dh : Float) : String :=
+  showList showFloat (cellAreas (α := Float) piF Float.cos (fun a b => a == b) (ox.zip oy) dh)
+
 def handle : List String → Option String
+  | ["c01_build", oxs, oys, dh, fl, decx, decy, decdh, arrays, loc] => some (
+      match parseList? parseRat? oxs, parseList? parseRat? oys, parseDh? dh,
+            parseFlags? fl, decx.toNat?, decy.toNat?, decdh.toNat?, parseList? parseInt? loc with
+      | some oxs, some oys, some dh, some fl, some dx, some dy, some dd, some loc =>
+        build oxs oys dh fl (dx, dy, dd) (arrays == "1") loc
+      | _, _, _, _, _, _, _, _ => "bad-op")
+  | ["c01_area", ox, oy, dh] => some (
+      match parseList? parseFloat? ox, parseList? parseFloat? oy, parseFloat? dh with
+      | some ox, some oy, some dh => area ox oy dh
+      | _, _, _ => "bad-op")
   | ["c01_region", xs, ys, is, js, fl, lons, lats, cats, arrays] => some (
       match parseList? parseRat? xs, parseList? parseRat? ys, parseList? parseNat? is, parseList? parseNat? js,
             parseList? parseNat? fl, parseList? parseRat? lons, parseList? parseRat? lats,
